@@ -22,6 +22,19 @@ FAMILY_FLAG = {"modifiers": "COMPONENT_MODIFIERS", "alias": "COMPONENT_ALIAS", "
 # no unit, `-`, `|`, brackets and `%` outside any component
 NEAR_TEXT = [["2", "eggs"], ["3", "times"], ["well-done"], ["-", "then"], ["a", "|", "b"], ["[sic]"],
              ["50%", "done"], ["(optional)"], ["No.", "7"], ["1/2", "way"], ["x2"], ["10", "más"]]
+# escaped marker / trigger characters are plain text: (printed, expected)
+NEAR_TEXT += [[("\\#1", "#1")], [("\\~5", "~5"), "or", "so"], [("2\\-3", "2-3"), "pieces"], [("\\{x\\}", "{x}")],
+              [("a\\|b", "a|b")], [("\\[mode\\]", "[mode]")]]
+# number-led TEXT values: core when the unit is introduced by `%` (quantity.rs 98-100: a `%`
+# anywhere in the braces sends the quantity down the regular path)
+NUM_TEXT_VALUES = ["2 medium", "1 large", "2 x 400", "3 or 4", "1 heaped", "2 small ripe", "1 1/2 big"]
+NUM_TEXT_UNITS = ["pieces", "piece", "g", "cloves", "tbsp", "cans"]
+# text values without unit that sit next to the range / advanced-units triggers
+ODD_TEXT_VALUES = ["2x", "semi-dry", "x2", "a-few"]
+# names with digits and punctuation (always written with braces)
+ING_EXTRA = ["7-up", "half & half", "St. Agur", "piri-piri", "no.5 flour"]
+META_BODY_LINES = [">> note: see above", ">> source: x y z", ">> k1: later", ">> serves: 4 people", ">>tip:stir"]
+
 INLINE_TEXT = [["180", "C"], ["5g"], ["1.5", "kg"], ["350", "F"], ["10", "min"], ["2", "cups"], ["-3", "C"]]
 
 
@@ -47,11 +60,35 @@ class CoreGen(grec.Gen):
             unit = self.r.choice(grec.UNITS_TIME)
             body = self.blank() + s + self.blank() + "%" + self.blank() + unit + self.blank()
             return body, {"value": {"type": "fixed", "value": {"type": "number", "value": j}}, "unit": unit}
+        r = self.r
+        if kind == "igr" and r.random() < 0.12:
+            txt = r.choice(NUM_TEXT_VALUES)
+            unit = r.choice(NUM_TEXT_UNITS)
+            body = self.blank() + txt + self.blank() + "%" + self.blank() + unit + self.blank()
+            return body, {"value": {"type": "fixed", "value": {"type": "text", "value": txt}}, "unit": unit}
+        if kind in ("igr", "cw") and r.random() < 0.05:
+            txt = r.choice(ODD_TEXT_VALUES)
+            j = {"type": "fixed", "value": {"type": "text", "value": txt}}
+            return self.blank() + txt + self.blank(), (j if kind == "cw" else {"value": j, "unit": None})
         return super().quantity(kind)
 
     def timer(self, st):
         self.n_timers += 1
         return super().timer(st)
+
+    def ingredient(self, st):
+        r = self.r
+        if r.random() < 0.08:
+            name = r.choice(ING_EXTRA)
+            qs, q = (self.quantity("igr") if r.random() < 0.6 else (None, None))
+            text = name + "{" + (qs if qs is not None else self.blank(0.2)) + "}"
+            note = None
+            if r.random() < 0.3:
+                note = r.choice(["chilled", "the blue one"])
+                text += "(" + note + ")"
+            st["ingredients"].append(_definition(name, q, note))
+            return ("c", "@" + text, "ingredient", len(st["ingredients"]) - 1)
+        return super().ingredient(st)
 
     # -- near-miss text ---------------------------------------------------------------------
     def extra_text(self):
@@ -68,7 +105,7 @@ class CoreGen(grec.Gen):
             for i, w in enumerate(words):
                 if i:
                     ins.append(("sp",))
-                ins.append(("t", w, w))
+                ins.append(("t", w[0], w[1]) if isinstance(w, tuple) else ("t", w, w))
             if r.random() < 0.5:
                 pieces = pieces + [("sp",)] + ins
             else:
@@ -83,7 +120,45 @@ class CoreGen(grec.Gen):
         if not text.startswith("---\n") and self.f["metadata"] and self.r.random() < 0.3:
             text = ">> src[1]: see [x]\n" + text
             exp["metadata"]["src[1]"] = "see [x]"
+        # after a YAML front matter a plain `>>` line is ordinary step text (mod.rs 361-371), a
+        # block of its own; placed before the first block, after the last one, or between steps
+        if text.startswith("---\n") and self.r.random() < 0.6:
+            text = self.meta_lines_in_body(text, exp)
+            info["meta_in_body"] = True
         return text, exp, info
+
+    def meta_lines_in_body(self, text, exp):
+        r = self.r
+        secs = exp["sections"]
+
+        def step(n, txt):
+            return {"type": "step", "number": n, "items": [["text", txt]]}
+
+        def nsteps(sec):
+            return sum(1 for b in sec["content"] if b["type"] == "step")
+
+        where = r.choice(["before", "after", "between", "both"])
+        if where in ("before", "both"):
+            line = r.choice(META_BODY_LINES)
+            fm_end = text.index("---\n", 4) + 4
+            text = text[:fm_end] + line + "\n" + text[fm_end:]
+            if secs and secs[0]["name"] is None:
+                for b in secs[0]["content"]:
+                    if b["type"] == "step":
+                        b["number"] += 1
+                secs[0]["content"].insert(0, step(1, line))
+            else:
+                secs.insert(0, {"name": None, "content": [step(1, line)]})
+        if where in ("after", "between", "both"):
+            line = r.choice(META_BODY_LINES)
+            text += ("" if text.endswith("\n") else "\n") + line + "\n"
+            last = secs[-1]
+            last["content"].append(step(nsteps(last) + 1, line))
+            if where == "between":
+                more = r.choice(["Serve hot now", "then mix well", "stir and pour"])
+                text += r.choice(["", "\n"]) + more + "\n"
+                last["content"].append(step(nsteps(last) + 1, more))
+        return text
 
 
 def _definition(name, q=None, note=None):
@@ -239,7 +314,11 @@ _TIME_QTY = re.compile(r"\s*[\d./ ]*\d[\d./ ]*\s*%\s*(\S+)\s*\Z")
 _NOT_NAME_START = set(" \t\n\r.>:@#~?+-/*&|=%{}()\\,;!\"'[]")
 
 
+_ESCAPE = re.compile(r"\\.", re.S)
+
+
 def core_reason(s, units=frozenset(), time_units=frozenset()):
+    s = _ESCAPE.sub("_", s)      # an escaped character is plain text whatever it is
     if _MOD_AFTER_MARKER.search(s):
         return "modifier-after-marker"
     if "|" in s and _PIPE_IN_NAME.search(s):
